@@ -27,7 +27,7 @@ from vlib.runner import Sub, Violation, require, VERIF_DIR
 PROPERTY = "C15"
 RULE = ("cases = (graph spec with groups / seeded / unnamed nodes / shared inputs, op-list over mutate-attempts, second-build attempts, "
         "assignments and the six round-trip kinds); non-trivial = graph with a shared input and (a group or a seeded node), history with a "
-        "rejected mutation followed by an assignment and >= 1 round-trip; distinct = SHA-1 of (spec, ops)")
+        "rejected mutation followed by an assignment and >= 1 round-trip; auto_names: (k unnamed nodes, kv unnamed variables, 1-4 pop / copy / copy-build passes each adding 0-3 unnamed nodes and 0-2 unnamed variables), non-trivial = >= 11 automatic names; distinct = SHA-1 of (spec, ops)")
 ASSUMPTIONS = [
     "a rejection is any exception; for frozen-member mutations the documented RuntimeError is required",
     "rebuilt models re-create their seed nodes with the default key, and Model.set_seed hands sub-keys out in an internal node order: seeded "
